@@ -180,6 +180,17 @@ DoFilter(S) ==
                              before |-> IF hist = <<>> THEN Nodes(tree) ELSE <<>>,
                              kept |-> LeafObs(tree')])
 
+\* sorted_tests(suite) with the result dropped, at most once per behaviour, before / between the filters: the same
+\* objects are filtered and sorted again afterwards.  It reorders the inside of suites with sort_tests only, which
+\* the model tree does not record: later observations are compared up to that order (see SeqRows).
+NPre == Cardinality({i \in DOMAIN hist : hist[i].a = "presort"})
+DoPreSort ==
+    /\ phase \in {"grow", "ops"} /\ MaxOps > 0 /\ NPre = 0
+    /\ phase' = "ops"
+    /\ hist' = Append(hist, [a |-> "presort", before |-> IF hist = <<>> THEN Nodes(tree) ELSE <<>>,
+                             sorted |-> Sorted(tree, "pre"), sortedPost |-> Sorted(tree, "post")])
+    /\ UNCHANGED <<tree, nops>>
+
 \* sorted_tests(suite) on what the filters left; ends the behaviour
 DoSort ==
     /\ phase = "ops"
@@ -197,6 +208,7 @@ Next ==
     \/ \E p \in ParentPaths : \E k \in LeafKinds : \E i \in Ids : AddLeaf(p, k, i)
     \/ \E p \in ParentPaths : \E k \in SuiteKinds : AddSuite(p, k)
     \/ \E S \in IdSets : DoFilter(S)
+    \/ DoPreSort
     \/ DoSort
 
 Spec == Init /\ [][Next]_vars
@@ -244,7 +256,20 @@ SortNoTypeError == Sorted(tree, "pre").exc # "TypeError"
 \* rows: one per distinct tree (an INVARIANT is evaluated once per distinct state)
 ExportRow == phase = "grow" => PrintT(<<"EXPORT", ToJson(Row(tree))>>)
 \* rows for sorted_tests alone (bigger trees, no filter table)
-SortRow(t) == [nodes |-> Nodes(t), leaves |-> LeafObs(t), filt |-> <<>>,
+\* SEQUENCES on the same suite objects: sorted_tests; filter_by_ids(S) in place; sorted_tests again.  The meaning of
+\* the last call is a function of the CURRENT content alone (history independence): Sorted(Filter(t, S)).  Sorting
+\* reorders the inside of suites that have sort_tests, so afterwards their first test is their smallest one (keyMode
+\* "post"); nothing else of an earlier call may survive.  Enumerated for S = all ids but one, on trees in which a
+\* non-plain suite holds at least two tests (so that its first test can be filtered away).
+HasBigCustom(t) == \E p \in DOMAIN t : ~IsLeaf(t, p) /\ ~IsPlain(t, p) /\ Len(LeafPathsUnderM(t, p)) >= 2
+SeqSets == SelectSeq(IdSetSeq, LAMBDA S : \E i \in Ids : S = Ids \ {i})
+SeqRows(t) == IF HasBigCustom(t) /\ ~HasDup(t)
+              THEN [n \in DOMAIN SeqSets |->
+                       LET ft == Filter(t, SeqSets[n])
+                       IN [ids |-> SetSeq(SeqSets[n]), kept |-> LeafObs(ft),
+                           sorted |-> Sorted(ft, "pre"), sortedPost |-> Sorted(ft, "post")]]
+              ELSE <<>>
+SortRow(t) == [nodes |-> Nodes(t), leaves |-> LeafObs(t), filt |-> <<>>, seqs |-> SeqRows(t),
                sorted |-> Sorted(t, "pre"), sortedPost |-> Sorted(t, "post")]
 ExportSortRow == phase = "grow" => PrintT(<<"EXPORT", ToJson(SortRow(tree))>>)
 \* behaviours (simulation): grow, filter in place MaxOps times, sort
